@@ -576,7 +576,7 @@ Definition spec_map (e : entries) (m : meth) (args : list arg) : res value :=
         match kv with VStr k => bind (fm_put c k vv) (fun r => Ok (VMap r)) | _ => Err None end))
   | M_plus, [a] =>
       bind (arg_val a) (fun v => match v with
-                                 | VMap o => bind (fm_merge c (fm_canon o)) (fun r => Ok (VMap r))
+                                 | VMap o => bind (fm_merge c o) (fun r => Ok (VMap r))
                                  | _ => Err None
                                  end)
   | M_replace, [a] =>
